@@ -332,7 +332,9 @@ _public_ void *m_bst_itr_get_data(const m_bst_itr_t *itr) {
 _public_ int m_bst_clear(m_bst_t *l) {
     M_PARAM_ASSERT(m_bst_len(l) > 0);
     
-    for (m_bst_itr_t *itr = m_bst_itr_new(l); itr; m_bst_itr_next(&itr)) {
+    m_bst_itr_t *itr = m_bst_itr_new(l);
+    M_ALLOC_ASSERT(itr);
+    for (; itr; m_bst_itr_next(&itr)) {
         m_bst_itr_remove(itr);
     }
     l->root = NULL;
